@@ -468,7 +468,7 @@ def q2R(q: np.ndarray, version: int = 1) -> np.ndarray:
         R[:, 1, 2] = 2.0*(q[:, 2]*q[:, 3]-q[:, 0]*q[:, 1])
         return R
     # Convert single quaternion
-    q /= np.linalg.norm(q)
+    q = q / np.linalg.norm(q)
     if version == 1:
         return np.array([
             [1.0-2.0*(q[2]**2+q[3]**2), 2.0*(q[1]*q[2]-q[0]*q[3]), 2.0*(q[1]*q[3]+q[0]*q[2])],
